@@ -672,6 +672,11 @@ class Task:
         for ch in self.children:
             ch._attach(wbs)
 
+    def _detach(self):
+        self.__wbs = None
+        for ch in self.children:
+            ch._detach()
+
     @property
     def id(self) -> Union[int, str]:
         return self.__id
@@ -808,6 +813,8 @@ class Task:
                 raise RuntimeError(f"Task {self.id} is a child of {ch.id}. Can't make child a parent of its parent")
             ch.__check_no_links_with_parents(self)
 
+        released = [v for v in self.__children if v not in value]
+
         for v in self.__children:
             v.__parent = None
 
@@ -815,6 +822,9 @@ class Task:
 
         for v in value:
             v.parent = self
+
+        for v in released:
+            v._detach()
 
     @property
     def all_children(self) -> _ImmutableTaskList:
